@@ -233,6 +233,7 @@ def make_numpy():
     m.repeat = lambda x, r, axis=None: NDArray(np.repeat(_obj(x), r, axis=axis))
     m.isin = lambda x, vals: NDArray(T._uf(lambda v: core.s_or(*[v == w for w in list(_obj(vals).flat)]), 1)(_obj(x)), dtype="bool")
     m.set_printoptions = lambda *a, **k: None
+    m.ascontiguousarray = lambda x, dtype=None: (x.copy() if isinstance(x, Arr) else NDArray(_obj(x)))
     m.nan_to_num = lambda x, *a, **k: x
 
     def frombuffer(buf, dtype=None):
@@ -528,7 +529,7 @@ class _ILoc:
             f = lambda v: (int(v) if isinstance(v, (Sym, Arr)) else v)
             rows = slice(f(rows.start), f(rows.stop), f(rows.step))
         names = [self.df.columns[c] for c in (cols if isinstance(cols, (list, tuple)) else range(*cols.indices(len(self.df.columns))))]
-        idx = range(*rows.indices(len(self.df))) if isinstance(rows, slice) else rows
+        idx = range(*rows.indices(len(self.df))) if isinstance(rows, slice) else [int(r_) for r_ in (rows.a.flat if isinstance(rows, Arr) else rows)]
         return DataFrame({n: [self.df.data[n][i] for i in idx] for n in names})
 
 
